@@ -109,7 +109,7 @@ Definition apply_eff (w : wstate) (comp : nat) (es : list fspec) : wstate :=
       (w_counter w + length es) (w_recent w) (w_pc w) (w_out w ++ eff_msgs (me w) comp (w_counter w) es)
       (w_rdead w) (w_log w) (w_started w) (w_finished w)
       (w_created w ++ map t_addr (eff_tasks (me w) comp (w_counter w) es))
-      (w_deposited w) (w_dropped w) (w_errs w) (w_oos w).
+      (w_deposited w) (w_dropped w) (w_stuck w) (w_errs w) (w_oos w).
 Definition t_eff (t : task) (c : nat) (es : list fspec) (rest : script) (p : pend) (n : nat) : task :=
   mkTask (t_addr t) (t_comp t) (t_script t) rest (t_futs t ++ eff_futs c es) p n (t_desired t) (t_won t)
          (t_owned t ++ seq c (length es)).
